@@ -6,6 +6,7 @@ mod extract;
 mod gen;
 mod hist;
 mod model;
+mod prog;
 mod real;
 mod rel;
 mod report;
@@ -207,6 +208,39 @@ fn main() {
         return;
     }
 
+    if let (Some(path), true) = (&args.replay, property == "C02" || property == "C13") {
+        let preset = if property == "C02" { prog::Preset::QuickXml } else { prog::Preset::SerdeXmlRs };
+        let p = if std::path::Path::new(path).is_absolute() { path.clone() } else { format!("{}/{}", report::VERIF, path) };
+        let hc = std::fs::read_to_string(&p)
+            .ok()
+            .and_then(|t| serde_json::from_str::<Value>(&t).ok())
+            .and_then(|v| v.get("case").and_then(HistoryCase::from_json));
+        match hc {
+            Some(hc) => {
+                let (rep, _, _, _) = prog::run(preset, false, args.seed, &[], Some(hc));
+                if rep.violations.is_empty() && rep.inconclusive == 0 {
+                    println!("replay: no violation on this case");
+                    std::process::exit(0);
+                }
+                for v in &rep.violations {
+                    println!("VIOLATION property={} replay={}", property, path);
+                    println!("  signature: {}", v.sig);
+                    for l in v.detail.lines() {
+                        println!("  {}", l);
+                    }
+                }
+                if rep.violations.is_empty() {
+                    println!("INCONCLUSIVE: {:?}", rep.inconclusive_reasons);
+                    std::process::exit(2);
+                }
+                std::process::exit(1);
+            }
+            None => {
+                println!("INCONCLUSIVE: cannot read the case in {}", path);
+                std::process::exit(2);
+            }
+        }
+    }
     if let Some(path) = &args.replay {
         let mut rep = Report::new();
         match replay_file(&property, path, &mut rep) {
@@ -234,7 +268,8 @@ fn main() {
     let findings: Vec<Finding> = report::load_findings(&property);
     let mut witness_sigs: Vec<(Finding, Vec<String>)> = Vec::new();
     let mut witness_report = Report::new();
-    for f in &findings {
+    let is_prog = property == "C02" || property == "C13";
+    for f in findings.iter().filter(|_| !is_prog) {
         let mut rep = Report::new();
         match replay_file(&property, &f.witness, &mut rep) {
             Ok(()) => {
@@ -307,6 +342,22 @@ fn main() {
                 _ => vec!["whitespace-only text is only rewritten to other whitespace-only text (whether it counts as character data is C03's business)".into()],
             };
             (r, rule, false, assumptions, if property == "C05" { 200 } else { 1000 }, json!({}))
+        } else if is_prog {
+            let preset = if property == "C02" { prog::Preset::QuickXml } else { prog::Preset::SerdeXmlRs };
+            let (r, rule, extra, ws) = prog::run(preset, args.tier == "thorough", args.seed, &findings, None);
+            witness_sigs = ws;
+            (
+                r,
+                rule,
+                false,
+                vec![
+                    "rustc (default toolchain), serde 1.0.229, quick-xml 0.37.5, serde-xml-rs 0.6.0 as pinned by the lock file are the oracles".into(),
+                    "C02: the generated crates enable quick-xml's overlapped-lists feature, because the property puts no adjacency condition on repeated children".into(),
+                    "serde's derive macros are brought into scope with #[macro_use] extern crate serde (macro namespace only)".into(),
+                ],
+                if args.tier == "thorough" { 1000 } else { 60 },
+                extra,
+            )
         } else if property == "C12" {
             let (r, rule) = cli::run_c12(args.tier == "thorough", args.seed, SHARDS);
             (
